@@ -138,6 +138,21 @@ theorem C16_nop_history {W R E P C} (pats : Option (List P)) (m : P → C → Bo
   | nil => simp [runCmds, executeNop, h]
   | cons c cs ih => simp [runCmds, ih]
 
+/-- **Phase order, 1**: a statement whose preparation fails (undefined session variable, bad `%` arguments) raises
+    that error whatever the nop patterns are — even a pattern that matches everything does not turn it into the success
+    no-op; and nothing is executed. -/
+theorem C16_prepare_error_before_nop {W R E P C T} (prep : C → Except E T) (pats : Option (List P)) (m : P → T → Bool)
+    (ok : R) (exec : W → T → W × Except E R) (w : W) (cmd : C) (e : E) (h : prep cmd = .error e) :
+    executePhased prep pats m ok exec w cmd = (w, .error e) := by
+  simp [executePhased, h]
+
+/-- **Phase order, 2**: the nop decision is taken on the PREPARED text (variables inlined, parameters substituted),
+    not on the command as written: a statement is no-op'ed iff its prepared text matches. -/
+theorem C16_nop_sees_prepared_text {W R E P C T} (prep : C → Except E T) (pats : Option (List P)) (m : P → T → Bool)
+    (ok : R) (exec : W → T → W × Except E R) (w : W) (cmd : C) (t : T) (h : prep cmd = .ok t) :
+    executePhased prep pats m ok exec w cmd = if nopDecision pats m t then (w, .ok ok) else exec w t := by
+  simp [executePhased, h, executeNop]
+
 /-- **Every other statement behaves exactly as without the option**. -/
 theorem C16_nop_no_match {W R E P C} (pats : Option (List P)) (m : P → C → Bool) (ok : R) (exec : W → C → W × Except E R)
     (w : W) (cmd : C) (h : nopDecision pats m cmd = false) :
